@@ -284,7 +284,11 @@ class EventBus:
     ):
         self.id = uuid7str()
         self.name = name or f'{self.__class__.__name__}_{self.id[-8:]}'
-        assert self.name.isidentifier(), f'EventBus name must be a unique identifier string, got: {self.name}'
+        # same rule as the PythonIdentifierStr fields that carry bus names (event_path, EventResult.eventbus_name): a name they
+        # reject must be refused here, not when the first event is processed
+        assert self.name.isidentifier() and not self.name.startswith('_'), (
+            f'EventBus name must be a unique identifier string not starting with an underscore, got: {self.name}'
+        )
 
         # Force garbage collection to clean up any dead EventBus instances in the WeakSet
         # gc.collect()  # Commented out - this is expensive and causes 5s delays when creating many EventBus instances
